@@ -502,13 +502,12 @@ def months_inc(start_date, months, eomonth=False):
     if start_date < 0:
         return NUM_ERROR
     y, m, d = date_from_int(start_date)
-    if eomonth:
-        y, m, d = normalize_year(y, m + months, 1)
-        if y < 1900:
-            return NUM_ERROR
-        return date(y, m, max_days_in_month(m, y))
-    else:
-        return date(y, m + months, d)
+    y, m, _ = normalize_year(y, m + months, 1)
+    if y < 1900:
+        return NUM_ERROR
+    # a day the target month does not have becomes its last day
+    last_day = max_days_in_month(m, y)
+    return date(y, m, last_day if eomonth else min(d, last_day))
 
 
 @time_value_wrapper
